@@ -69,4 +69,15 @@ PROPS = {
             "thorough": [dict(test="TestC07Model", checks=150000, shards=16, timeout=3000), dict(test="TestC07Regression", mode="plain")],
         },
     ),
+    "C17": dict(
+        kind="ext", pkg="./c17", level="exploration", engine="bubble",
+        technique="model-based property testing (rapid histories in a synctest bubble, both implementations against one reference map)",
+        level_text="Generated histories of concurrent Await goroutines, Store (equal / conflicting / partially failing sets), cancellation and expiry, applied to MemDB and MemDBV2; "
+                   "after every step and quiescence each reader whose key is stored must have returned exactly the stored value and every other reader must still be blocked.",
+        level_note="synctest.Wait() defines 'as soon as stored' (no goroutine can make progress any more); interleavings inside a mutex section are not controlled (race tier only).",
+        runs={
+            "quick": [dict(test="TestC17Model", checks=8000, shards=4), dict(test="TestC17Regression", mode="plain")],
+            "thorough": [dict(test="TestC17Model", checks=150000, shards=16, timeout=3000), dict(test="TestC17Regression", mode="plain")],
+        },
+    ),
 }
